@@ -2,8 +2,8 @@ package main
 
 // C20 exploration: the read-only actions (list, status, history, get, get values, get
 // metadata) over a release record that is valid JSON but lacks parts of a release.
-// Recorded as a known finding (known_findings.d/C20.json): the storage layer returns such a
-// record (it decodes), and action.List / action.Status / action.GetMetadata dereference
+// Former known finding K8, repaired by 1478473 (witnesses stay in the corpus): the storage layer returned such a
+// record (it decodes), and action.List / action.Status / action.GetMetadata dereferenced
 // rel.Info / rel.Chart.Metadata.
 
 import (
